@@ -105,7 +105,14 @@ func genDocs(r *Rng, maxNodes int) []DocSpec {
 	n := r.Weighted([]int{0, 5, 3, 1})
 	var ds []DocSpec
 	for i := 0; i < n; i++ {
-		ds = append(ds, GenDoc(r, maxNodes))
+		switch {
+		case r.Chance(1, 24):
+			ds = append(ds, GenWideDoc(r)) // size stratum: one very wide level
+		case r.Chance(1, 24):
+			ds = append(ds, GenDeepDoc(r)) // size stratum: a deep chain
+		default:
+			ds = append(ds, GenDoc(r, maxNodes))
+		}
 	}
 	return ds
 }
@@ -390,9 +397,10 @@ func genCacheOps(r *Rng, n int, keys []string, faults bool) []Step {
 			st := Step{Op: "get", K: k}
 			if faults && r.Chance(1, 6) {
 				st.Fail = true
-			} else if faults && r.Chance(1, 12) {
-				st.Panic = true
 			}
+			// (a panicking client loader - Step.Panic - is implemented but not
+			// generated: the statement is about loads that fail, not about loaders
+			// that panic, and a correct single-flight cache wedges on the latter)
 			out = append(out, st)
 		case 1:
 			st := Step{Op: "matches", S: genSubject(r), K: k, Src: r.Pick([]string{"const", "const", "concat", "nodeset"})}
@@ -408,6 +416,9 @@ func genCacheOps(r *Rng, n int, keys []string, faults bool) []Step {
 
 func genKeys(r *Rng) []string {
 	n := r.Range(2, 8)
+	if r.Chance(1, 12) {
+		n = r.Range(9, 20) // size stratum: many distinct patterns
+	}
 	seen := map[string]bool{}
 	var keys []string
 	for len(keys) < n {
@@ -430,8 +441,15 @@ func GenC16H(seed, run uint64) *Scenario {
 	if r.Chance(1, 6) {
 		s.Cfg.CacheCap = -1
 	}
+	if r.Chance(1, 12) {
+		s.Cfg.CacheCap = []int{7, 8, 9, 15, 16, 17}[r.Intn(6)] // size stratum: capacities around powers of two
+	}
 	keys := genKeys(r)
-	s.Steps = genCacheOps(r, r.Range(5, 60), keys, s.Cfg.Faults)
+	nops := r.Range(5, 60)
+	if len(keys) > 8 {
+		nops = r.Range(40, 120)
+	}
+	s.Steps = genCacheOps(r, nops, keys, s.Cfg.Faults)
 	// a small document whose element names double as patterns, for predicates
 	// whose pattern comes from the context node: //*[matches(@k, local-name())]
 	doc := DocSpec{}
@@ -552,6 +570,9 @@ func GenC05(seed, run uint64, ok CompileOK) *Scenario {
 		}
 	}
 	nt := r.Range(2, 4)
+	if r.Chance(1, 15) {
+		nt = r.Range(5, 6) // size stratum: more callers
+	}
 	// tasks collide on purpose: a "hot" (expression, document, context) that
 	// most operations use
 	hotE, hotD := r.Intn(len(s.Exprs)), r.Intn(len(s.Docs))
